@@ -178,6 +178,9 @@ def run(ctx, eng):
                 o.where.endswith('_local_settings_acked')),
                'the acknowledged MAX_HEADER_LIST_SIZE reaches the decoder '
                'whatever else the same frame changed')
+    cm.include(ctx, eng, 'C21', {'OWN.buffer'},
+               'the receive buffer holds at most the bytes of the frame in '
+               'progress: every frame handed out is removed from it')
     ctx.assume('actual memory is not measured; reserved (pushed) streams '
                'are not counted by any limit (outside the listed '
                'mechanisms)')
